@@ -65,6 +65,41 @@ def gen_case(rng, thorough):
     for o in ops: o.setdefault("loc", "a")
     return prot, wk, rk, ops
 
+SYS_MUTATING = ("addFact", "remFact", "addRule", "remRule", "enableRule", "setParents", "clear", "deleteLocation")
+
+
+def sys_ro_case(rng, state):
+    loc = "a"
+    probes = [{"op": "store", "_probe": True}, {"op": "search", "pattern": {"k": "?v"}, "inherited": False, "_probe": True},
+              {"op": "listRules", "inherited": False, "_probe": True}, {"op": "getParents", "_probe": True}]
+    ops = [{"op": "create"}, {"op": "create", "loc": "p"},
+           {"op": "addFact", "id": "f1", "fact": {"k": 1}}, {"op": "addFact", "id": "f2", "fact": {"k": "two"}},
+           {"op": "addRule", "id": "r1", "rule": {"when": {"pattern": {"go": "?x"}}, "action": {"code": "Env.AddFact(\"made\", {\"k\": \"made\"})"}}}]
+    if rng.random() < 0.5:
+        ops.append({"op": "setParents", "parents": ["p"]})
+    ops.append({"op": "setReadOnly", "value": True})
+    ops += copy.deepcopy(probes)
+    for _ in range(rng.randint(2, 7)):
+        r = rng.random()
+        if r < 0.22: o = {"op": "deleteLocation"}
+        elif r < 0.36: o = {"op": "addFact", "id": rng.choice(["f1", "f3", ""]), "fact": {"k": rng.choice([1, 2, "x"])}}
+        elif r < 0.46: o = {"op": "remFact", "id": rng.choice(["f1", "f2", "nope"])}
+        elif r < 0.54: o = {"op": "clear"}
+        elif r < 0.62: o = {"op": "setParents", "parents": rng.choice([[], ["p"], ["q"]])}
+        elif r < 0.70: o = {"op": "addRule", "id": rng.choice(["r1", "r2"]), "rule": {"when": {"pattern": {"go": "?y"}}, "action": {"code": "1"}}}
+        elif r < 0.76: o = {"op": "remRule", "id": "r1"}
+        elif r < 0.82: o = {"op": "enableRule", "id": "r1", "enable": False}
+        elif r < 0.92: o = {"op": "event", "event": {"go": rng.choice([1, "now"])}}
+        else: o = {"op": "getFact", "id": "f1"}
+        ops.append(o)
+        ops += copy.deepcopy(probes)
+    ops.append({"op": "setReadOnly", "value": False})
+    ops.append({"op": "addFact", "id": "after", "fact": {"k": "after"}, "_must_succeed": True})
+    ops.append({"op": "store", "_probe": True})
+    for o in ops: o.setdefault("loc", loc)
+    return {"kind": "c17.sys", "ttl": "forever", "state": state, "check": False, "ops": ops}
+
+
 def main():
     ck = Check("C19")
     if "--replay" in sys.argv:
@@ -115,13 +150,54 @@ def main():
             elif not must_refuse and refused and o.get("err") in ("writeDenied", "readDenied", "readOnly", "disabled"):
                 ck.violation("%s refused (%s) although the caller presented the right keys on a %s location (%s state)" % (op["op"], o.get("err"), prot, c["state"]), rp, tag="refused")
     lr.stats["matrix_cells"] = len(matrix)
+    # ---- System level: the read-only flag lives on the *Location the System hands out (location cache, TTL forever): while it is
+    # set, every mutating request through the System API -- DeleteLocation and rule actions included -- fails and leaves the
+    # stored documents and the answers unchanged; after it is cleared writes are served again
+    nsys = 60 if not ck.thorough else 1500
+    scases = [sys_ro_case(ck.rng, st) for _ in range(nsys) for st in ("indexed", "linear")]
+    for c, o in zip(scases, run_cases(lr.drv, scases)):
+        ck.count({"sys": c["ops"], "s": c["state"]})
+        lr.stats["sys_readonly_histories"] += 1
+        outs = (o or {}).get("outs")
+        if not isinstance(outs, list) or len(outs) != len(c["ops"]):
+            ck.violation("System-level read-only history failed to run: %s" % canon(o)[:300], {"case": c, "impl": o}, tag="crash")
+            continue
+        ro, base = False, None
+        for k, (op, r) in enumerate(zip(c["ops"], outs)):
+            refused = r.get("err") is not None
+            rp = {"case": dict(c, ops=c["ops"][: k + 1]), "impl": r, "baseline": base}
+            if op["op"] == "setReadOnly":
+                ro = op["value"]; base = None
+                continue
+            if op.get("_probe"):
+                if ro and base is None:
+                    base = {}
+                if ro:
+                    key = canon({kk: v for kk, v in op.items() if kk != "_probe"})
+                    val = str(canon_out({kk: v for kk, v in op.items() if kk != "_probe"}, r)[1]) if op["op"] != "store" else canon(r.get("ok"))
+                    if key in base and base[key] != val:
+                        ck.violation("System level: while the location was read-only the answer to %s changed from %s to %s (%s state; previous request: %s)" % (
+                            op["op"], base[key][:200], val[:200], c["state"], canon(c["ops"][k - 1] if k else None)[:200]), rp, tag="sys-sideeffect")
+                        break
+                    base.setdefault(key, val)
+                continue
+            lr.stats["sys_readonly_ops"] += 1 if ro else 0
+            if ro and op["op"] in SYS_MUTATING and not refused:
+                ck.violation("System.%s served although the location is read-only (%s state): %s" % (op["op"], c["state"], canon(r)[:200]), rp, tag="sys-served")
+                break
+            if not ro and op.get("_must_succeed") and refused and r.get("err") == "readOnly":
+                ck.violation("System.%s refused as read-only after the flag was cleared (%s state)" % (op["op"], c["state"]), rp, tag="sys-refused")
+                break
     for c in cases[:2]:
         ck.sample({"state": c["state"], "prot": c["_prot"], "ops": c["ops"][3:9]})
     lr.finish_cov("protection states {none, write key, read key, both, read-only, write key + read-only, disabled} x callers {no key, wrong key, right key} x every operation of the "
                   "Location API the harness reaches (17 ops), at a random point of a short history, both states; snapshots of memory and storage around each call; "
-                  "compared with the Lean model and with the property itself (must refuse / refusal is a no-op / right key is transparent)")
+                  "compared with the Lean model and with the property itself (must refuse / refusal is a no-op / right key is transparent); "
+                  "plus System-level histories (location cache TTL forever) with the read-only flag set on the Location the System hands out: every mutating request incl. DeleteLocation "
+                  "and rule actions refused, stored documents and answers unchanged while the flag is set")
     ck.cov["distribution"]["matrix"] = {"cells": len(matrix)}
     proof_verdict(ck, pr)
     ck.finish()
 
-main()
+if __name__ == "__main__":
+    main()
